@@ -1100,15 +1100,16 @@ pub fn run_history(ch: &mut dyn Chooser, cfg: &Cfg, rep: &mut Report, want: &str
             _ => {}
         }
         w.log.push(format!("{:?}", op).chars().take(200).collect());
+        // findings are collected outside the closure so that they survive a panic later in the same step
+        let mut o2: Vec<V> = vec![];
         let res = catch(|| {
-            let mut o2: Vec<V> = vec![];
             apply(&mut w, &op, &mut o2);
             check_world(&w, &mut o2, opn, step);
-            o2
         });
         ops_done += 1;
+        out.extend(o2);
         match res {
-            Ok(vs) => out.extend(vs),
+            Ok(()) => {}
             Err(p) if p.file.contains("domops.rs") => {
                 // the panic is in this monitor's own bookkeeping, not in the library: it lost track of the DOM.
                 // After a deviation already reported for another property that is expected (model and DOM differ
